@@ -6,6 +6,7 @@ import gate
 
 CONFIGS = ['prod', 'testutils']
 EXPLANATION = (
+    "PURE: no operation of the set or of its version vectors lets an ambient reading (wall clock, monotonic clock, randomness, environment, thread / process id — directly or through a workspace helper that returns one) decide a branch, a returned value or a stored value: the outcome is a function of the set and the operation (call graph from every method of OrSWotSet / NodeVersions + derived-from relation per body; the crate's own wall-clock helper is the positive control). "
     'SEM (primary): OrSWotSet::diff interpreted over all abstract inputs lists a peer entry exactly when this replica lacks it (live keys first list, tombs'
     'tones second; purge cut-off consulted only when nothing is held). '
     'Decided clauses: D0 what diff lists — in the per-key test every push into a result vector is guarded, on each of the two '
@@ -450,6 +451,9 @@ def check_D1(ctx, facts, rule='C05.D1'):
 
 def check(ctx):
     facts = ctx.facts('prod')
+    # PURE (round 8, C04h: the mutators dropped operations stamped too far ahead of the replica's wall clock): set operations read no ambient input
+    import purity
+    purity.check_pure_core(ctx, facts, 'C05.PURE')
     # SEM: diff's per-key transfer function over the finite domain of order types (P-ORDER): a peer entry is listed exactly
     # when this replica lacks it, live keys first list, tombstones second.  Subsumes D0, which is only evaluated when the
     # code uses a construct the abstract interpreter does not model.
